@@ -3,8 +3,6 @@ package main
 // Which cases exist for a tier, and how a worker walks through its share.
 
 import (
-	"fmt"
-	"os"
 	"runtime/debug"
 	"time"
 )
@@ -119,12 +117,15 @@ func (e *execSet) run(cs Case) bool {
 	return true
 }
 
+func (e *execSet) reason() string {
+	if e.pm != nil && e.pm.dead {
+		return "dead"
+	}
+	return "dirty"
+}
+
 // groupEnd runs the end-of-group monitors of whatever executor is in use; false = replace the process.
 func (e *execSet) groupEnd(surface string) bool {
-	if os.Getenv("C15_DEBUG_TIME") != "" {
-		t0 := time.Now()
-		defer func() { fmt.Fprintf(os.Stderr, "groupEnd %v\n", time.Since(t0)) }()
-	}
 	good := true
 	switch surface {
 	case "a", "b":
@@ -145,7 +146,7 @@ func (e *execSet) groupEnd(surface string) bool {
 	return good
 }
 
-func runSurface(s Sink, p plan, restart func(next int)) {
+func runSurface(s Sink, p plan, restart func(next int, reason string)) {
 	e := &execSet{s: s}
 	if p.Surface == "f" {
 		all := fixedCases()
@@ -158,7 +159,7 @@ func runSurface(s Sink, p plan, restart func(next int)) {
 			}
 			s.Stat("fixed_regression_cases", 1)
 			if !e.groupEnd(cs.S) && i+1 < p.To {
-				restart(i + 1)
+				restart(i+1, e.reason())
 			}
 		}
 		return
@@ -200,20 +201,20 @@ func runSurface(s Sink, p plan, restart func(next int)) {
 		if e.pm != nil && e.pm.dead {
 			// a liveness probe failed: nothing more can be learnt from this process
 			if i+1 < p.To {
-				restart(i + 1)
+				restart(i+1, "dead")
 			}
 			return
 		}
 		if (i-p.From+1)%gs == 0 || i+1 == p.To {
 			if !e.groupEnd(p.Surface) && i+1 < p.To {
-				restart(i + 1)
+				restart(i+1, e.reason())
 			}
 		}
 	}
 }
 
 // runCases executes materialised cases (replay of a witness).
-func runCases(s Sink, p plan, cases []Case, restart func(int)) {
+func runCases(s Sink, p plan, cases []Case, restart func(int, string)) {
 	e := &execSet{s: s}
 	last := ""
 	for _, cs := range cases {
